@@ -490,7 +490,7 @@ def _finish(c):
 
 
 def run_shard(ctx):
-    n = 22 if ctx.tier == "quick" else 800
+    n = 18 if ctx.tier == "quick" else 800
     _quiet()
 
     def body(case):
